@@ -210,6 +210,9 @@ def check_protocol(fx, R, cq, dim):
                     'the cell count is |end - origin|_1 without the + 1: the walk from the origin cell to the end cell visits |d|_1 + 1 cells, so the end cell is never reported'),
                    (len(got) == 1 and got[0][0] == 'return' and isinstance(got[0][1], tuple) and got[0][1][0] == '+' and got[0][1][1] in (want_n[0][1][1], want_n2[0][1][1]) and isinstance(got[0][1][2], int) and got[0][1][2] != 1,
                     'the cell count is |end - origin|_1 + %s, the walk visits |d|_1 + 1 cells' % (got[0][1][2] if len(got) == 1 and isinstance(got[0][1], tuple) and len(got[0][1]) == 3 else '?'))])
+    # fast paths: statements in front of the stepping loop that can return the ray themselves.  Each is stepped (E-STEP, the moving axis as one scalar) on single-line witness rays in both directions;
+    # the entries it writes must be origin + n * step.  They are then set aside and the stepping loop is judged as usual.
+    c0 = fast_paths(fx, R, cname, c0)
     s0 = stmts_sx(c0)
     vecname = next((s[1] for s in s0 if s[0] == 'decl' and isinstance(s[2], tuple) and str(s[2][0]).startswith('new:std::vector<')), None)
     want0 = [('decl', 'rayNumberOfCells', ('.computeRayNumberOfCells', 'this')),
@@ -297,6 +300,61 @@ def check_protocol(fx, R, cq, dim):
     # ---- Y4 completeness + Y5 formulas -------------------------------------------
     check_set_end_point(fx, R, cq, cname, dim, fse)
     check_parameter_aliasing(fx, R, cq, cname)
+
+
+def fast_paths(fx, R, cname, c0):
+    from .. import mini
+    top = c0['body']['s'] if c0.get('body') and c0['body'].get('k') == 'Compound' else []
+    wi = next((i_ for i_, x_ in enumerate(top) if x_.get('k') == 'While'), None)
+    if wi is None:
+        return c0
+    fast = [x_ for x_ in top[:wi] if x_.get('k') in ('For', 'If') and any(y_.get('k') == 'Return' for y_ in walk(x_))]
+    if not fast:
+        return c0
+    for fp in fast:
+        # the innermost loop that writes ray[n]
+        fills = [L_ for L_ in walk(fp) if L_.get('k') == 'For' and L_ is not fp and any(y_.get('k') == 'Expr' and 'ray[' in pp(y_['e']).replace(' ', '') for y_ in walk(L_.get('b')))]
+        guard = next((y_ for y_ in walk(fp) if y_.get('k') == 'If' and any(z_ is fills[0] for z_ in walk(y_.get('t')))), None) if fills else None
+        verdict = None
+        if len(fills) == 1 and guard is not None and fills[0].get('init') and fills[0]['init'].get('k') == 'Decl':
+            nvar = fills[0]['init']['vars'][0]['name']
+            for (o_, e_, st_) in ((5, 8, 1), (5, 2, -1), (0, 3, 1), (7, 6, -1)):
+                N_ = abs(e_ - o_) + 1
+                got = []
+                try:
+                    for n_ in range(N_):
+                        S_ = mini.Step(deep_unwrap, index_vars={'axis', nvar})
+                        env = {'this.rayStep_': st_, 'this.rayEndIndexes_': e_, 'this.rayOriginIndexes_': o_, 'rayNumberOfCells': N_, nvar: n_, 'axis': 0, 'ray': None}
+                        if n_ == 0 and not S_.ev(deep_unwrap(sx(guard['c'])), dict(env)):
+                            got = None
+                            break
+                        S_.run(fills[0]['b'], env)
+                        got.append(env.get('ray'))
+                except (mini.Unsupported, mini.Returned, TypeError) as e_x:
+                    verdict = ('undecided', 'fast path not interpretable: %s' % e_x)
+                    break
+                if got is None:
+                    continue                  # the fast path is not taken for this witness
+                want = [o_ + st_ * n_ for n_ in range(N_)]
+                if got != want:
+                    verdict = ('violated', 'cast() has a fast path (`%s`) for rays confined to one line of cells; stepping it on the ray from cell %d to cell %d of that axis (step %+d, %d cells) it writes the indexes %s; '
+                               'the cells the segment crosses are %s: the walk goes the wrong way for a negative direction - cells that the segment does not cross (and, near the border, cells outside the grid) are '
+                               'reported and the last entry is not the cell of the end point' % (pp(guard['c'])[:110], o_, e_, st_, N_, got, want))
+                    break
+            else:
+                verdict = verdict or ('holds', 'fast path writes origin + n * step on single-line witness rays in both directions')
+        else:
+            verdict = ('undecided', 'a statement in front of the stepping loop can return the ray and is not a recognisable fast path')
+        if verdict[0] == 'violated':
+            R.violated('Y3', cname.split('<')[0] + '::cast():fast-path', verdict[1] + ' [%s]' % cname, fx.rel(fp['loc']), 'E-STEP')
+        elif verdict[0] == 'holds':
+            R.holds('Y3', cname + '::cast():fast-path', verdict[1], fx.rel(fp['loc']), 'E-STEP')
+        else:
+            R.undecided('Y3', cname + '::cast():fast-path', verdict[1])
+    c1 = dict(c0)
+    c1['body'] = dict(c0['body'])
+    c1['body']['s'] = [x_ for x_ in top if not any(x_ is f_ for f_ in fast)]
+    return c1
 
 
 def check_parameter_aliasing(fx, R, cq, cname):
